@@ -152,11 +152,68 @@ def run_history(ctx, rng, length, hid):
         sim.close()
 
 
+def racing_pair(ctx, rng, hid):
+    """two clients hold the same ETag of one object and both send a conditional write; the first is held right before one of
+    its acquisitions of the storage lock while the second runs to completion.  Exactly one of them may succeed (RFC 7232:
+    the second one's precondition is false by then) — whatever lock windows the handlers use."""
+    import threading
+    from common import App
+    ev = lambda uid, n: ("BEGIN:VCALENDAR\r\nVERSION:2.0\r\nPRODID:x\r\nBEGIN:VEVENT\r\nUID:%s\r\nDTSTAMP:20240101T000000Z\r\n"     # noqa: E731
+                         "DTSTART:20240102T100000Z\r\nSUMMARY:v%d\r\nEND:VEVENT\r\nEND:VCALENDAR\r\n" % (uid, n))
+    with App({"auth": {"type": "none"}}) as app:
+        app.request("MKCALENDAR", "/u/c/", login="u:pw")
+        st, hd, _ = app.request("PUT", "/u/c/a.ics", ev("a", 0), login="u:pw", CONTENT_TYPE="text/calendar")
+        etag = hd.get("ETag")
+        if st != 201 or not etag:
+            return
+        kinds = {"PUT": lambda n: ("PUT", "/u/c/a.ics", ev("a", n), {"HTTP_IF_MATCH": etag, "CONTENT_TYPE": "text/calendar"}),
+                 "DELETE": lambda n: ("DELETE", "/u/c/a.ics", None, {"HTTP_IF_MATCH": etag}),
+                 "MOVE-away": lambda n: ("MOVE", "/u/c/a.ics", None, {"HTTP_DESTINATION": "http://127.0.0.1/u/c/moved%d.ics" % n})}
+        ka = rng.choice(["PUT", "DELETE", "DELETE"])
+        kb = rng.choice(["PUT", "PUT", "DELETE"])
+        hold_before = rng.choice([2, 3, 3])
+        storage = app.storage
+        orig = storage.acquire_lock
+        state = {"n": 0, "tid": threading.get_ident(), "b": None, "b_status": None}
+
+        def run_b():
+            m, p, b, env = kinds[kb](2)
+            state["b_status"] = app.request(m, p, b, login="u:pw", **env)[0]
+
+        def gated(mode, user="", *a, **k):
+            if threading.get_ident() == state["tid"]:
+                state["n"] += 1
+                if state["n"] == hold_before and state["b"] is None:
+                    state["b"] = threading.Thread(target=run_b, daemon=True)
+                    state["b"].start()
+                    state["b"].join(timeout=20)
+            return orig(mode, user, *a, **k)
+        storage.acquire_lock = gated
+        try:
+            m, p, b, env = kinds[ka](1)
+            sa = app.request(m, p, b, login="u:pw", **env)[0]
+        finally:
+            storage.acquire_lock = orig
+        if state["b"] is not None:
+            state["b"].join(timeout=30)
+        sb = state["b_status"]
+        case = {"held": ka + " If-Match", "in_between": kb + " If-Match", "held_before_lock_acquisition": hold_before,
+                "statuses": {"held": sa, "in_between": sb}}
+        ctx.case("racing:%s/%s" % (ka, kb), sample=case, key=["race", hid], nontrivial=sb is not None)
+        if sb is not None and sa < 300 and sb < 300:
+            ctx.violation("lost update: two writers conditional on the same ETag were both carried out (%s %d, %s %d)" % (ka, sa, kb, sb), case)
+        if sb is not None and sa >= 300 and sb >= 300:
+            ctx.violation("two writers conditional on the current ETag were both refused (%s %d, %s %d)" % (ka, sa, kb, sb), case)
+
+
 def run(ctx):
     ctx.extra["rule"] = ("histories of 10-40 writes on 2 calendars and an address book with If-Match (current / stale / foreign / malformed / *) and "
                          "If-None-Match: *; after every successful PUT the ETag is read back through GET, HEAD, PROPFIND and REPORT; "
                          "non-trivial = the request carried a precondition")
-    ctx.trusted += ["harness/davsim.py", "SHA-256 as injective (ETag bijection with content ids)", "interleavings reduce to serial orders (C09-C11)"]
+    ctx.trusted += ["harness/davsim.py", "SHA-256 as injective (ETag bijection with content ids)", "interleavings reduce to serial orders (C09-C11); two racing conditional writers are scheduled explicitly (racing_pair)"]
     rng = ctx.rng("hist")
     for h in range(ctx.n(40, 3000)):
         run_history(ctx, rng, rng.randint(10, 40), h)
+    rng2 = ctx.rng("race")
+    for h in range(ctx.n(30, 600)):
+        racing_pair(ctx, rng2, h)
